@@ -909,17 +909,26 @@ func typeAssert(i *interpreter, instr *ssa.TypeAssert, itf iface) value {
 	var v value
 	err := ""
 	if itf.t == nil {
-		err = fmt.Sprintf("interface conversion: interface is nil, not %s", instr.AssertedType)
-
+		err = "nil"
 	} else if idst, ok := instr.AssertedType.Underlying().(*types.Interface); ok {
 		v = itf
-		err = checkInterface(i, idst, itf)
-
-	} else if types.Identical(itf.t, instr.AssertedType) {
+		if meth, _ := types.MissingMethod(itf.t, idst, true); meth != nil {
+			err = "missing"
+		}
+	} else if itf.t == instr.AssertedType || types.Identical(itf.t, instr.AssertedType) {
 		v = itf.v // extract value
-
 	} else {
-		err = fmt.Sprintf("interface conversion: interface is %s, not %s", itf.t, instr.AssertedType)
+		err = "other"
+	}
+	if err != "" && !instr.CommaOk {
+		switch err {
+		case "nil":
+			err = fmt.Sprintf("interface conversion: interface is nil, not %s", instr.AssertedType)
+		case "missing":
+			err = checkInterface(i, instr.AssertedType.Underlying().(*types.Interface), itf)
+		default:
+			err = fmt.Sprintf("interface conversion: interface is %s, not %s", itf.t, instr.AssertedType)
+		}
 	}
 	// Note: if instr.Underlying==true ever becomes reachable from interp check that
 	// types.Identical(itf.t.Underlying(), instr.AssertedType)
